@@ -2,7 +2,7 @@
 import copy
 import math
 import numpy as np
-from harness import coqio, gen, pipeline
+from harness import coqio, gen, pipeline, tablelayout
 from harness.core import exc_kind
 
 PROP = 'C13'
@@ -17,9 +17,13 @@ COQ_STREAMS = {
 }
 RULE = ('(a) epoch_df on synthetic tables of both centrings whose closing indices fall on, one before and one after '
         'multiples of the epoch length, sig_len not necessarily a multiple of it, including empty epochs; row labels default, '
-        'shifted, reversed or shuffled; (b) '
+        'shifted, reversed or shuffled; about 40 % of the tables with their columns sorted / reversed / shuffled, some with an '
+        'unrelated extra column; (b) '
         'compute_features_2d(axis=None) on generated signals reshaped to (n_rows, row_len), n_rows >= 1, with the option argument '
-        'absent / None / {} / a single dict / a per-epoch list (one-element list for a one-row array) of different thresholds, '
+        'absent / None / {} / a single dict / a per-epoch list (one-element list for a one-row array) of different thresholds, or '
+        '(extra stream, up to 60 quick / 600 thorough) a per-epoch list whose entries are all EQUAL - n equal dict objects or one dict '
+        'object n times ([d] * n), with and without a centre key - on longer recordings cut into epochs of 2-10 periods, so that re-labelling every epoch on its own '
+        '(ends cleared, run rule inside the epoch) differs from the flattened labels (counted: /relabelling-differs-from-flat), '
         'both burst methods; every key optional (centre, method, thresholds incl. the amplitude ones, find_extrema_kwargs with '
         'boundary / filter length, a "return_samples" entry which is documented as ignored); row lengths shorter than a cycle '
         '(empty epochs) and longer; the flattened analysis is compute_features of the concatenated signal with the same options. '
@@ -72,79 +76,112 @@ def cases(rng, tier):
                     'labels': [rng.random() < 0.5 for _ in rows], 'index': index})
     m = 90 if tier == 'quick' else 900
     for _ in range(m):
-        r = rng.random()
-        shape = 'list' if r < 0.45 else ('dict' if r < 0.8 else ('none' if r < 0.9 else 'empty'))
-        method = 'cycles' if shape in ('none', 'empty') else rng.choice(['cycles', 'cycles', 'amp'] if shape == 'dict' else ['cycles', 'amp'])
-        # amplitude labels depend on where bursts start and stop: prefer signals with many burst edges for that method
-        kinds = ['bursty', 'sparse', 'bursty', 'sparse', 'sum', 'noise', 'sine'] if method == 'amp' else \
-            ['sine', 'bursty', 'sparse', 'sum', 'asym', 'noise', 'chirp']
-        s = gen.signal(rng, kind=rng.choice(kinds), max_len=640)
-        sig = s['sig']
-        per = s['period']
-        row_len = rng.choice([per // 2, per, per + 3, 2 * per, 3 * per + 1, 5 * per])
-        if rng.random() < 0.12:
-            row_len = len(sig)                      # a (1, T) array: one epoch holding every cycle
-        n_rows = len(sig) // row_len
-        if n_rows < 1:
+        c = _axis_none_case(rng)
+        if c is not None:
+            out.append(c)
+    # per-epoch lists whose entries are all EQUAL (with and without a centre key, both methods)
+    for _ in range(60 if tier == 'quick' else 600):
+        # 'plain': the repeated option set carries no thresholds and no method (defaults in every epoch)
+        mode = rng.choice(['fresh', 'same', 'same-plain', 'fresh-plain'])
+        c = _axis_none_case(rng, equal=mode)
+        if c is None or c['n_rows'] < 2:
             continue
-        # the centre is optional: absent means the default, 'peak'
-        center = rng.choice(['peak', 'trough'])
-        give_center = rng.random() < 0.65
-        if not give_center or shape in ('none', 'empty'):
-            center = 'peak'
-
-        def thresholds(is_first):
-            # every key is optional: an epoch that omits one must get the DEFAULT, not a neighbour's value; later
-            # epochs omit keys more often, and the first set more often carries non-default values, so that it matters
-            p_key = 0.6 if is_first else 0.5
-            if method == 'cycles':
-                thr = {k: rng.choice([0.0, 0.2, 0.4, 0.6, 0.9]) for k in CYC if rng.random() < p_key}
-                if rng.random() < p_key:
-                    thr['min_n_cycles'] = rng.choice([1, 2, 3])
-                return thr if (thr or rng.random() < 0.7) else None
-            thr = {}
-            if rng.random() < (0.8 if is_first else 0.5):
-                thr['burst_fraction_threshold'] = rng.choice([0.1, 0.3, 0.5, 1] if is_first else [0.1, 0.5, 1])
-            if rng.random() < (0.8 if is_first else 0.5):
-                thr['min_n_cycles'] = rng.choice([1, 1, 2, 3] if is_first else [1, 2, 3])
-            return thr if (thr or rng.random() < 0.7) else None
-
-        def opts(is_first):
-            d = {}
-            if give_center and (is_first or rng.random() < 0.7):
-                d['center_extrema'] = center
-            if method == 'amp':
-                d['burst_method'] = 'amp'
-            elif rng.random() < 0.3:
-                d['burst_method'] = 'cycles'
-            thr = thresholds(is_first)
-            if thr is not None:
-                d['threshold_kwargs'] = thr
-            if rng.random() < 0.2:
-                d['return_samples'] = rng.random() < 0.3          # documented: ignored
-            return d
-        first, lst = None, None
-        if shape in ('dict', 'list'):
-            first = opts(True)
-            if method == 'amp':
-                first['burst_kwargs'] = {'amp_threshes': (0.5, 1.2)}
-            if rng.random() < 0.4:
-                fek = {}
-                r2 = rng.random()
-                if r2 < 0.4:
-                    fek['filter_kwargs'] = {'n_cycles': rng.choice([2, 3, 4])}
-                elif r2 < 0.65:
-                    fek['filter_kwargs'] = {'n_seconds': round(rng.choice([0.9, 2.5, 3, 4]) * per / s['fs'] / 0.7, 6)}
-                if rng.random() < 0.7 or not fek:
-                    fek['boundary'] = rng.choice([0, 1, 5, len(sig) // 10, per])
-                first['find_extrema_kwargs'] = fek
-            if shape == 'list':
-                lst = [first] + [opts(False) for _ in range(n_rows - 1)]
-        out.append({'kind': 'axis_none/%s/%s' % (method, shape), 'sig': gen.hexlist(sig[:n_rows * row_len]),
-                    'fs': s['fs'], 'f_range': list(s['f_range']), 'n_rows': n_rows, 'row_len': row_len, 'method': method,
-                    'center': center, 'shape': shape, 'first': first, 'list': lst, 'omit_arg': shape == 'none' and rng.random() < 0.5,
-                    'layout': rng.choice(['C', 'C', 'F', 'view'])})
+        c['list_mode'] = mode.split('-')[0]     # 'fresh': n equal dict objects; 'same': ONE dict object n times ([d] * n)
+        out.append(c)
+    # column layout of the synthetic tables handed to epoch_df (drawn last: the tables are those of earlier runs)
+    for c in out:
+        if c['kind'] == 'synthetic':
+            c['cols'] = tablelayout.gen_layout(rng)
     return out
+
+
+def _axis_none_case(rng, equal=None):
+    """One compute_features_2d(axis=None) case (None: the signal is shorter than one row). equal = 'fresh' | 'same':
+    a per-epoch list whose entries are all equal (see there)."""
+    r = rng.random()
+    shape = 'list' if r < 0.45 else ('dict' if r < 0.8 else ('none' if r < 0.9 else 'empty'))
+    if equal:
+        shape = 'list'
+    plain = bool(equal) and equal.endswith('plain')
+    method = 'cycles' if (shape in ('none', 'empty') or plain) else rng.choice(['cycles', 'cycles', 'amp'] if shape == 'dict' else ['cycles', 'amp'])
+    # amplitude labels depend on where bursts start and stop: prefer signals with many burst edges for that method
+    kinds = ['bursty', 'sparse', 'bursty', 'sparse', 'sum', 'noise', 'sine'] if method == 'amp' else \
+        ['sine', 'bursty', 'sparse', 'sum', 'asym', 'noise', 'chirp']
+    if equal:
+        kinds = kinds + ['sine', 'bursty', 'asym']
+    # equal lists: longer recordings, so that an epoch can hold enough cycles for a run between its cleared ends
+    s = gen.signal(rng, kind=rng.choice(kinds), max_len=1800 if equal else 640)
+    sig = s['sig']
+    per = s['period']
+    row_len = rng.choice([2 * per, 3 * per + 1, 5 * per, 7 * per + 2, 10 * per] if equal else [per // 2, per, per + 3, 2 * per, 3 * per + 1, 5 * per])
+    if rng.random() < 0.12 and not equal:
+        row_len = len(sig)                      # a (1, T) array: one epoch holding every cycle
+    n_rows = len(sig) // row_len
+    if n_rows < 1:
+        return None
+    # the centre is optional: absent means the default, 'peak'
+    center = rng.choice(['peak', 'trough'])
+    give_center = rng.random() < 0.65
+    if not give_center or shape in ('none', 'empty'):
+        center = 'peak'
+
+    def thresholds(is_first):
+        # every key is optional: an epoch that omits one must get the DEFAULT, not a neighbour's value; later
+        # epochs omit keys more often, and the first set more often carries non-default values, so that it matters
+        p_key = 0.6 if is_first else 0.5
+        if method == 'cycles':
+            # equal lists: mostly lenient values (long bursts, so that the epoch ends matter), some stricter than the defaults
+            thr = {k: rng.choice([0.0, 0.2, 0.4, 0.4, 0.7] if equal else [0.0, 0.2, 0.4, 0.6, 0.9]) for k in CYC if rng.random() < p_key}
+            if rng.random() < p_key:
+                thr['min_n_cycles'] = rng.choice([1, 1, 2, 3, 5] if equal else [1, 2, 3])
+            return thr if (thr or rng.random() < 0.7) else None
+        thr = {}
+        if rng.random() < (0.8 if is_first else 0.5):
+            thr['burst_fraction_threshold'] = rng.choice([0.1, 0.3, 0.5, 1] if is_first else [0.1, 0.5, 1])
+        if rng.random() < (0.8 if is_first else 0.5):
+            thr['min_n_cycles'] = rng.choice([1, 1, 2, 3] if is_first else [1, 2, 3])
+        return thr if (thr or rng.random() < 0.7) else None
+
+    def opts(is_first):
+        d = {}
+        if give_center and (is_first or rng.random() < 0.7):
+            d['center_extrema'] = center
+        if method == 'amp':
+            d['burst_method'] = 'amp'
+        elif rng.random() < 0.3 and not plain:
+            d['burst_method'] = 'cycles'
+        thr = None if plain else thresholds(is_first)
+        if thr is not None:
+            d['threshold_kwargs'] = thr
+        if rng.random() < 0.2:
+            d['return_samples'] = rng.random() < 0.3          # documented: ignored
+        return d
+    first, lst = None, None
+    if shape in ('dict', 'list'):
+        first = opts(True)
+        if method == 'amp':
+            first['burst_kwargs'] = {'amp_threshes': (0.5, 1.2)}
+        if rng.random() < 0.4:
+            fek = {}
+            r2 = rng.random()
+            if r2 < 0.4:
+                fek['filter_kwargs'] = {'n_cycles': rng.choice([2, 3, 4])}
+            elif r2 < 0.65:
+                fek['filter_kwargs'] = {'n_seconds': round(rng.choice([0.9, 2.5, 3, 4]) * per / s['fs'] / 0.7, 6)}
+            if rng.random() < 0.7 or not fek:
+                fek['boundary'] = rng.choice([0, 1, 5, len(sig) // 10, per])
+            first['find_extrema_kwargs'] = fek
+        if shape == 'list' and equal:
+            # every epoch gets an option set EQUAL to the first one: n fresh dicts, or one dict object n times
+            # ([d] * n). The statement still says: each epoch re-labelled on its own (its first / last cycle cleared,
+            # run rule inside the epoch) - which is not the labelling of the flattened analysis.
+            lst = [copy.deepcopy(first) for _ in range(n_rows)]
+        elif shape == 'list':
+            lst = [first] + [opts(False) for _ in range(n_rows - 1)]
+    return {'kind': 'axis_none/%s/%s' % (method, shape), 'sig': gen.hexlist(sig[:n_rows * row_len]),
+            'fs': s['fs'], 'f_range': list(s['f_range']), 'n_rows': n_rows, 'row_len': row_len, 'method': method,
+            'center': center, 'shape': shape, 'first': first, 'list': lst, 'omit_arg': shape == 'none' and rng.random() < 0.5,
+            'layout': rng.choice(['C', 'C', 'F', 'view'])}
 
 
 def _features_df(c):
@@ -181,20 +218,30 @@ def _full(df):
 def run_impl(c):
     from bycycle.utils.dataframes import epoch_df
     if c['kind'] == 'synthetic':
-        df = _features_df(c)
+        df = tablelayout.apply_layout(_features_df(c), c.get('cols'))     # columns by name, wherever they stand
+        extra = tablelayout.extra_name(c.get('cols'))
         before = df.copy()
         try:
             eps = epoch_df(df, c['sig_len'], c['L'])
         except Exception as e:
             return {'err': exc_kind(e), 'msg': str(e)[:200]}
+        need = pipeline.sample_cols(c['center']) + ['period', 'volt_amp', 'amp_fraction', 'is_burst', 'rowid']
+        for k, e in enumerate(eps):
+            if not hasattr(e, 'columns') or any(col not in e.columns for col in need):
+                return {'malformed': 'epoch %d is not a table with the sample, feature and label columns of the input' % k, 'epochs': []}
         out = {'epochs': [_rows_of(e, c['center']) for e in eps], 'input_unchanged': bool(before.equals(df))}
         feats_ok = True
         for e in eps:
             for i in range(len(e)):
                 rid = int(e['rowid'].iloc[i])
+                if not 0 <= rid < len(before):
+                    feats_ok = False
+                    continue
                 if e['volt_amp'].iloc[i] != before['volt_amp'].iloc[rid] or e['amp_fraction'].iloc[i] != before['amp_fraction'].iloc[rid] \
                         or e['period'].iloc[i] != before['period'].iloc[rid]:
                     feats_ok = False
+                if extra and extra in e.columns and not tablelayout.same_column([e[extra].iloc[i]], [before[extra].iloc[rid]]):
+                    feats_ok = False        # the user's own column travels with its cycle
         out['features_unchanged'] = feats_ok
         return out
     from bycycle.features import compute_features
@@ -231,6 +278,8 @@ def run_impl(c):
         for o in kw:
             if isinstance(o.get('burst_kwargs'), dict) and 'amp_threshes' in o['burst_kwargs']:
                 o['burst_kwargs']['amp_threshes'] = tuple(o['burst_kwargs']['amp_threshes'])
+        if c.get('list_mode') == 'same':
+            kw = [kw[0]] * len(kw)          # one dict object for every epoch (all entries are equal in this mode)
     elif shape == 'none':
         kw = None
     else:
@@ -368,12 +417,20 @@ def kind_of(c, o):
             flags.append('rs_entry')
         if c['n_rows'] == 1:
             flags.append('1row')
+        if c.get('list_mode'):
+            flags.append('equal_list_' + c['list_mode'])
         if flags:
             k += '+' + '+'.join(flags)
     if 'skip' in o:
         return k + '/skipped'
     if 'epochs' in o and any(len(e) == 0 for e in o['epochs']):
         k += '/empty_epoch'
+    if c.get('list_mode') and 'epochs' in o and 'flat' in o:
+        # observability: would keeping the labels of the flattened analysis have been noticed on this input?
+        if any(r['id'] != 99999 and r['lab'] != o['flat'][r['id']]['lab'] for e in o['epochs'] for r in e):
+            k += '/relabelling-differs-from-flat'
+    if c['kind'] == 'synthetic':
+        k += tablelayout.tag(c.get('cols'))
     return k + ('/err' if 'err' in o else '')
 
 
